@@ -33,7 +33,8 @@ RULE = ("seeded random linear class chains (depth 1-4, plain non-attrs classes i
         "every name whose value changed with its new value, the callbacks of the step with their arguments.  "
         "assigned values are fresh tokens or the very object currently stored under the name (obj.f = obj.f); "
         "converters and user hooks include ones that return None (symbols nil_*, compared under the interpretation "
-        "nil_* -> None).  define-default classes: o.f = x against a fresh C(f=x) (value and callbacks).  Each case is evaluated "
+        "nil_* -> None); user hooks (single and list members), validators and converters are, with probability 0.3 "
+        "each, callable OBJECTS that are falsy (__bool__ False / __len__ 0).  define-default classes: o.f = x against a fresh C(f=x) (value and callbacks).  Each case is evaluated "
         "against the faithful model and against the property-level reference resolution.  distinct = distinct case "
         "term; non-trivial = rejected definition or class whose resolved __setattr__ is not object's")
 EXTRA_TRUSTED = ["the field tuple attr.fields(cls), the MRO __slots__ and __dict__ presence of the class under test are "
